@@ -220,3 +220,5 @@ def s2(I):
     I.check('status_set_as_requested', [stt.get('swaps_enabled'), stt.get('deposits_enabled'), stt.get('withdrawals_enabled')] == exp)
     I.check('reserves_untouched', smt.And(*[smt.Eq(x, y) for x, y in zip(reserves_of(p1), reserves_of(before1))]))
     I.check('other_pool_untouched', I.values_eq(get_pool(I, 'p2'), before2))
+
+from . import lockdep   # noqa: E402,F401  (locked-deposit path under the switches)
